@@ -227,6 +227,10 @@ def sym_chunk(eng, kind, name):
         return new_deferred(eng, BYT, counter_fn(eng, B, []), sized=n), B, n
     if kind == "D":
         return new_deferred(eng, BYT, counter_fn(eng, B, [])), B, slen(B)
+    if kind == "N":
+        # an unsized chunk that cannot be computed yet while anything is speculative (its body calls not_ready()): its length() stays pending
+        # when it is asked for, so the sum of lengths is built with int + pending
+        return new_deferred(eng, BYT, counter_fn(eng, B, [], raises="not_ready")), B, slen(B)
     inner = new_deferred(eng, BYT, counter_fn(eng, B, []), sized=slen(B))
     return new_deferred(eng, BYT, counter_fn(eng, inner, [])), B, slen(B)
 
@@ -298,6 +302,12 @@ vals = [bytes([65 + i]) * (i + 1) for i in range(len(kinds))]
 def mk(k, v):
     if k == "b": return v
     if k == "S": return SizedDeferred(bytes, len(v), lambda v=v: v)
+    if k == "N":
+        from pdpy11.deferred import not_ready
+        def body(v=v):
+            not_ready()
+            return v
+        return Deferred(bytes, body)
     return Deferred(bytes, lambda v=v: v)
 parts = [mk(k, v) for k, v in zip(kinds, vals)]
 if assoc == "right":
@@ -308,8 +318,9 @@ elif assoc == "pairs":
 else:
     acc = parts[0]
     for p in parts[1:]: acc = acc + p
+pending_length = acc.length() if hasattr(acc, "length") else len(acc)      # asked for while the parts are still pending, as the compiler does
 got = wait(acc)
-ln = wait(acc.length()) if hasattr(acc, "length") else len(acc)
+ln = wait(pending_length)
 result = dict(want=b"".join(vals).hex(), got=got.hex(), length=ln, ok=(got == b"".join(vals) and ln == len(b"".join(vals))))
 """ % (list(cfg["kinds"]), cfg["assoc"])
     jobs = [dict(kind="py", code=code)]
@@ -457,29 +468,35 @@ result = dict(one_step_returns_the_pending_value=(w1 is d), inner_body_runs_duri
     return dict(jobs=jobs, observed=dict(promise=r, link_programs=obs), reproduced=(isinstance(r, dict) and r.get("ok") is False) or any(x[0] != "ok" or x[1] != 0o2002 for x in obs))
 
 
-def replay_poly_scalar(cfg, tree):
-    """the same expression on the real deferred.py with concrete coefficients and values, evaluated after the variables are settled"""
+def replay_poly_scalar(cfg, tree, witness=None):
+    """the same expression on the real deferred.py with concrete coefficients and values, evaluated after the variables are settled; the scalar n
+    takes the witness's value and 0, 1, -1, 5"""
     from pyvc import driver
+    wn = str((witness or {}).get("n", 5))
+    ns = sorted(set([int(wn) if wn.lstrip("-").isdigit() else 5, 5, 0, 1, -1]))
     code = """
 from pdpy11.deferred import Promise, LinearPolynomial, wait
 which, shape = %r, %r
-xs = [Promise[int]("x%%d" %% i) for i in range(3)]
 sig = [7, 11, 13]
-p = LinearPolynomial[int]({xs[i]: 2 + i for i in shape}, 3)
-pv = 3 + sum((2 + i) * sig[i] for i in shape)
-n = 5
-x, y = xs[0], xs[1]
-table = {"p+n": (lambda: p + n, pv + n), "n+p": (lambda: n + p, n + pv), "p-n": (lambda: p - n, pv - n), "n-p": (lambda: n - p, n - pv), "p*n": (lambda: p * n, pv * n),
-         "n*p": (lambda: n * p, n * pv), "-p": (lambda: -p, -pv), "x+n": (lambda: x + n, sig[0] + n), "n+x": (lambda: n + x, n + sig[0]), "x-y": (lambda: x - y, sig[0] - sig[1]),
-         "x-x": (lambda: x - x, 0), "-x": (lambda: -x, -sig[0]), "n*x": (lambda: n * x, n * sig[0]), "x+p": (lambda: x + p, sig[0] + pv), "n-x": (lambda: n - x, n - sig[0]),
-         "x+x": (lambda: x + x, 2 * sig[0]), "x+y": (lambda: x + y, sig[0] + sig[1]), "p+x": (lambda: p + x, pv + sig[0]), "x+x+x": (lambda: x + x + x, 3 * sig[0]),
-         "x-p": (lambda: x - p, sig[0] - pv)}
-f, want = table[which]
-r = f()
-for v, s_ in zip(xs, sig): v.settle(s_)
-got = wait(r)
-result = dict(want=want, got=got, ok=(got == want))
-""" % (cfg["which"], list(cfg["shape"]))
+results = []
+for n in %r:
+    xs = [Promise[int]("x%%d" %% i) for i in range(3)]
+    p = LinearPolynomial[int]({xs[i]: 2 + i for i in shape}, 3)
+    pv = 3 + sum((2 + i) * sig[i] for i in shape)
+    x, y = xs[0], xs[1]
+    table = {"p+n": (lambda: p + n, pv + n), "n+p": (lambda: n + p, n + pv), "p-n": (lambda: p - n, pv - n), "n-p": (lambda: n - p, n - pv), "p*n": (lambda: p * n, pv * n),
+             "n*p": (lambda: n * p, n * pv), "-p": (lambda: -p, -pv), "x+n": (lambda: x + n, sig[0] + n), "n+x": (lambda: n + x, n + sig[0]), "x-y": (lambda: x - y, sig[0] - sig[1]),
+             "x-x": (lambda: x - x, 0), "-x": (lambda: -x, -sig[0]), "n*x": (lambda: n * x, n * sig[0]), "x+p": (lambda: x + p, sig[0] + pv), "n-x": (lambda: n - x, n - sig[0]),
+             "x+x": (lambda: x + x, 2 * sig[0]), "x+y": (lambda: x + y, sig[0] + sig[1]), "p+x": (lambda: p + x, pv + sig[0]), "x+x+x": (lambda: x + x + x, 3 * sig[0]),
+             "x-p": (lambda: x - p, sig[0] - pv)}
+    f, want = table[which]
+    r = f()
+    for v, s_ in zip(xs, sig): v.settle(s_)
+    got = wait(r)
+    results.append(dict(n=n, want=want, got=got, ok=(got == want)))
+bad = [r_ for r_ in results if not r_["ok"]]
+result = dict(failing=bad[:3], ok=not bad)
+""" % (cfg["which"], list(cfg["shape"]), ns)
     jobs = [dict(kind="py", code=code)]
     r = driver.native(jobs, tree)[0]
     r = r.get("result") or r
@@ -931,6 +948,9 @@ def all_units():
     for kinds in itertools.product(("b", "S", "D"), repeat=3):
         us.append(("concat[%s,right]" % "".join(kinds), "unit_concat", dict(kinds=kinds, assoc="right")))
         us.append(("concat[%s,pairs]" % "".join(kinds), "unit_concat", dict(kinds=kinds, assoc="pairs")))
+    for kinds in (("b", "N"), ("N", "b"), ("S", "N"), ("N", "N"), ("b", "N", "b"), ("b", "S", "N"), ("S", "N", "S"), ("N", "b", "N")):
+        for assoc in ("left", "right"):
+            us.append(("concat[%s,%s]" % ("".join(kinds), assoc), "unit_concat", dict(kinds=kinds, assoc=assoc)))
     for kinds in (("b", "S", "b", "S"), ("S", "b", "b", "D"), ("b", "b", "S", "S"), ("S", "S", "b", "b"), ("b", "D", "b", "D")):
         for assoc in ("right", "pairs"):
             us.append(("concat[%s,%s]" % ("".join(kinds), assoc), "unit_concat", dict(kinds=kinds, assoc=assoc)))
